@@ -153,23 +153,32 @@ class Model:
 
     # -- alphabet (enabled-ness is decided from the observer's bookkeeping, never from the implementation's fields)
     def ops(self, st):
+        al = st.root.get("alpha")  # None: the full alphabet; else the subset of ALPHA this family explores
+        on = (lambda k: True) if al is None else (lambda k: k in al)
+        hold = st.root.get("hold", MAX_HOLD)
         out = []
         for o, _p, _t in st.root["ops"]:
             if o not in st.ctx:
-                out.append(("start", o))
+                if on("start"):
+                    out.append(("start", o))
                 continue
             for r in st.reg:
                 cur = st.own.get(r)
-                if not (cur is not None and cur[0] == o and cur[1] >= MAX_HOLD):
+                mine = cur is not None and cur[0] == o
+                if on("acquire") and not (mine and cur[1] >= hold):
                     out.append(("acquire", o, r))
-                if cur is not None:  # by its owner, or by somebody else while it is owned (must change nothing)
+                # by its owner, or by somebody else while it is owned (must change nothing)
+                if cur is not None and on("release" if mine else "release_other"):
                     out.append(("release", o, r))
-            if any(c[0] == o for c in st.own.values()):
+            if on("release_all") and any(c[0] == o for c in st.own.values()):
                 out.append(("release_all", o))
-            out.append(("complete", o))
-            out.append(("abort", o))
-        for s in STRATEGIES:
-            out.append(("watchdog", s))
+            if on("complete"):
+                out.append(("complete", o))
+            if on("abort"):
+                out.append(("abort", o))
+        if on("watchdog"):
+            for s in STRATEGIES:
+                out.append(("watchdog", s))
         for r in st.root["late"]:
             if r not in st.reg:
                 out.append(("register", r))
@@ -193,6 +202,8 @@ class Model:
         edges = tuple((w, tuple(deps)) for w, deps in st.ctl.dependency_graph.edges.items())
         boosts = tuple(sorted((o, b.original_priority) for o, b in st.pi.active_boosts.items()))
         wdh = tuple(tuple(e.operation_id for e in st.wd[s].events) for s in STRATEGIES)
+        if st.root.get("kills") == "set":  # deep families: WHICH ids each watchdog object has killed, not how often / when
+            wdh = tuple(tuple(sorted(set(h))) for h in wdh)
         return (age, act, res, own, per, tuple(sorted(st.waits)), edges, tuple(sorted(st.why.items())), boosts, wdh,
                 tuple(st.reg))
 
@@ -437,13 +448,13 @@ def _acq(*pairs):
     return [["acquire", o, r] for o, r in pairs]
 
 
-def _root(ops, res, preempt=(), pre=(), late=(), boost=False, wd="plain", exempt=()):
+def _root(ops, res, preempt=(), pre=(), late=(), boost=False, wd="plain", exempt=(), **more):
     """ops: (id, priority, start instant); preempt: resources with allow_preemption; pre: judged prefix applied
     before the search starts; late: resources registered by a `register` step of the history instead of up front;
     boost: check_and_boost / clear_all are part of the alphabet; wd: 'plain' = Watchdog(strategy) /
     'never' = all three timeout options set to a value that cannot fire; exempt: metadata watchdog_exempt=True"""
     return {"ops": [list(x) for x in ops], "res": list(res), "preempt": list(preempt), "pre": [list(x) for x in pre],
-            "late": list(late), "boost": bool(boost), "wd": wd, "exempt": list(exempt)}
+            "late": list(late), "boost": bool(boost), "wd": wd, "exempt": list(exempt), **more}
 
 
 R3 = ("r1", "r2", "r3")
